@@ -1,16 +1,23 @@
 PROP = {
-    "modules": ["IdenaModel.Props.C13"],
+    "modules": ["IdenaModel.Props.C13", "IdenaModel.Props.C13State"],
     "theorems": [
         "IdenaModel.Store.overlay_refines",
         "IdenaModel.Store.iter_eq",
         "IdenaModel.Store.overlay_perm_unchanged",
         "IdenaModel.Store.overlay_perm_unchanged_run",
         "IdenaModel.Store.overlay_as_found_counterexample",
+        "IdenaModel.Store.view_isolated",
+        "IdenaModel.Store.view_refines",
+        "IdenaModel.Store.at_commit_self",
+        "IdenaModel.Store.at_commit_older",
+        "IdenaModel.Store.retention_commit",
+        "IdenaModel.Store.desc_commit",
     ],
-    "channels": [{"name": "C13", "exe": "oracle_c13"}],
+    "channels": [{"name": "C13", "exe": "oracle_c13"}, {"name": "C13state", "exe": "oracle_c13s"}],
     "trusted_base": [
         "tm-db MemDB (third party) modelled as a strictly sorted association list; its argument checks (empty key, nil value, empty bound) are mirrored in the Lean driver glue, not in the theorem",
-        "byte-string keys embedded order-preservingly into Nat by the driver (keys <= 8 bytes)"],
+        "byte-string keys embedded order-preservingly into Nat by the driver (keys <= 8 bytes)",
+        "state level: the IAVL tree (third party) is modelled as a list of saved versions of sorted stores with pruning to MaxSavedStatesCount; account balances stand for arbitrary state values; views during real block validation/building are additionally covered by C03 (database hash before/after every refused block)"],
     "assumptions": ["sequential use of one view (concurrency is out of the model)"],
 }
 META = {
